@@ -21,12 +21,18 @@ import (
 
 var linKeys = [][2]string{{"a", "x"}, {"a", "y"}, {"b", "x"}, {"b", "y"}, {"c", "x"}}
 
-func linState(k int) []kv.Obj {
-	n := k%3 + 2
+// linState(j): odd j = 2v-1 is the full state of version v (v%3+2 objects, all at version v); even j = 2v is
+// the same state shrunk to its first half — a relist that only deletes (no new version anywhere).
+func linState(j int) []kv.Obj {
+	v := (j + 1) / 2
+	n := v%3 + 2
+	if j%2 == 0 {
+		n = (n + 1) / 2
+	}
 	var l []kv.Obj
 	for i := 0; i < n; i++ {
-		key := linKeys[(k+i)%len(linKeys)]
-		l = append(l, kv.Obj{Kind: "pod", NS: key[0], Name: key[1], RV: strconv.Itoa(k), Labels: map[string]string{"v": strconv.Itoa(k)}})
+		key := linKeys[(v+i)%len(linKeys)]
+		l = append(l, kv.Obj{Kind: "pod", NS: key[0], Name: key[1], RV: strconv.Itoa(v), Labels: map[string]string{"v": strconv.Itoa(v)}})
 	}
 	return l
 }
